@@ -264,6 +264,9 @@ S4 == /\ stage = 35 /\ stage' = 4
             lie_std |-> <<LieStD(1, W16), LieStD(2, W16), LieStD(3, W16), LieStD(4, W16)>>,
             s_Gamma_udd3_bssnok |-> V3s([abc \in Sp \X Sp \X Sp |-> JVal(aux.gamtil3[abc])]),
             s_Ricci_down3_bssnok |-> LET rt == Ricci(RiemannUddd(aux.gamtil3, Sp), Sp) IN V2s([ijq \in Sp \X Sp |-> rt[<<ijq[1], ijq[2]>>]]),
+            \* the conformal Ricci scalar is the trace with the CONFORMAL inverse metric gammatilde^ij = psi^4 gamma^ij
+            s_RicciS_bssnok |-> LET rt == Ricci(RiemannUddd(aux.gamtil3, Sp), Sp) IN
+                                Dot33([ijq \in Sp \X Sp |-> Mu(JVal(GamTilUpJ(ijq[1], ijq[2])), rt[<<ijq[1], ijq[2]>>])]),
             zero9 |-> <<0, 0, 0, 0, 0, 0, 0, 0, 0>>, zero16 |-> V2a([abq \in All \X All |-> 0]), zero |-> 0, zero3 |-> <<0, 0, 0>>
          ]
       /\ UNCHANGED <<cs, al, be, gam, gamup, gamdet, g4, g4up, g4det, gam3, gam4, kdd, r3, r4, w4, aux>>
